@@ -431,6 +431,58 @@ func (w *World) exec(t []string) string {
 			return errClass(err)
 		}
 		return strconv.FormatInt(l, 10)
+	case "blocks", "random":
+		n, _ := unhx(t[2])
+		_, c, e := w.coll(atoi(t[1]), n)
+		if e != "" {
+			return e
+		}
+		var keys []string
+		v := func(i *gkvlite.Item, depth uint64) bool {
+			keys = append(keys, hex.EncodeToString(i.Key))
+			return true
+		}
+		var err error
+		if t[0] == "random" {
+			err = c.VisitItemsRandom(v)
+		} else {
+			var bm gkvlite.BlockMangler
+			switch {
+			case t[4] == "rev":
+				bm = func(b [][]byte) [][]byte {
+					for i, j := 0, len(b)-1; i < j; i, j = i+1, j-1 {
+						b[i], b[j] = b[j], b[i]
+					}
+					return b
+				}
+			case t[4] == "rand":
+				bm = gkvlite.RandBm
+			}
+			err = c.VisitItemsAscendBlockEx(t[3] == "1", bm, v)
+		}
+		if err != nil {
+			if strings.Contains(err.Error(), "impossible block sizes") {
+				return "err-blocks"
+			}
+			return errClass(err)
+		}
+		sort.Strings(keys)
+		return fmt.Sprintf("%d:%d", len(keys), fnv([]byte(strings.Join(keys, ","))))
+	case "fill":
+		n, _ := unhx(t[2])
+		_, c, e := w.coll(atoi(t[1]), n)
+		if e != "" {
+			return e
+		}
+		cnt := atoi(t[3])
+		for i := 0; i < cnt; i++ {
+			it := &gkvlite.Item{Key: []byte(fmt.Sprintf("k%06d", i)), Val: []byte(strconv.Itoa(i)),
+				Priority: int32((uint64(i)*2654435761 + 12345) % 2147483648)}
+			if err := c.SetItem(it); err != nil {
+				return errClass(err)
+			}
+		}
+		return "ok"
 	case "evict":
 		n, _ := unhx(t[2])
 		_, c, e := w.coll(atoi(t[1]), n)
